@@ -43,7 +43,11 @@ SIG_CHARS = list(":/?#[]@!$&'()*+,;=%") + [' ', '"', '<', '>', '\\', '^', '`', '
                                              # letters whose case mappings / foldings leave ASCII or meet it: dotted and
                                              # dotless i, long s, Kelvin and Angstrom signs, sharp s, final sigma, ligatures
                                              '\u0130', '\u0131', '\u017f', '\u212a', '\u212b', '\u1e9e', '\u03c2', '\ufb01',
-                                             '\u00b2', '\u2460', '\uff21', '\uff10']
+                                             '\u00b2', '\u2460', '\uff21', '\uff10',
+                                             # the code points whose canonical (NFC) form IS an ASCII character: Greek
+                                             # question mark -> ';', Greek varia -> '`'; and ones composing with what follows
+                                             '\u037e', '\u1fef', 'a\u037eb', '\u0340', '\u0341', '\u0343', '\u0374', '\u2126',
+                                             '\u0958', '\ufb1d', '\u2adc', '=\u0338', '<\u0338', '>\u0338']
 COMPONENTS = ['username', 'password', 'path', 'qkey', 'qval', 'fragment']
 SCHEMES = ['http', 'https', 'ftp', 'foo', 'git+ssh', 'x-y.z']
 HOSTS = ['example.com', 'a.b.c.example', 'localhost', 'b\xfccher.ch', '\u65e5\u672c.jp', '127.0.0.1',
@@ -291,6 +295,13 @@ def check_fixed(c, st):
                     'URL(%r).to_text(%s) = %r but parsing and rendering that gives %r' % (s, full, t1[1], t2))
         if full:
             p = legality_problem(t1[1])
+            if p and legality_problem(s) is None and u.get_authority(full_quote=full, with_userinfo=True) == '' and \
+                    u.path_parts[:2] == ('', '') and len(u.path_parts) > 2 and RE_SPLIT.match(s).group(2) is not None:
+                # the same mechanism as above seen from the other side: "////F:-9" is rendered "//F:-9", whose
+                # "authority" F:-9 (really the path) is not a legal one
+                return ('fixed-point:empty-authority+path-begins-with-empty-segment',
+                        'URL(%r).to_text(%s) = %r drops the empty authority, so the path reads as an authority (%s)'
+                        % (s, full, t1[1], p))
             if p and legality_problem(s) is None:
                 return ('illegal-output:from-text', 'URL(%r) renders fully quoted as %r: %s' % (s, t1[1], p))
     st.see(('fixed', s))
